@@ -55,3 +55,13 @@ def as_cells(arr) -> list[tuple[int, int]]:
     if a.size == 0:
         return []
     return [tuple(int(x) for x in q) for q in a.reshape(-1, 2)]
+
+
+def run_generator(case: dict):
+    """call a registered generator exactly as `MazeDataset.generate` does (grid_shape as ndarray, kwargs as loaded from JSON)"""
+    from maze_dataset.generation.generators import GENERATORS_MAP
+
+    seed_globals(case["np_seed"], case["py_seed"])
+    fn = GENERATORS_MAP[case["gen"]]
+    kw = dict(case.get("kw", {}))
+    return fn(np.array([case["r"], case["c"]]), **kw)
